@@ -90,7 +90,7 @@ def run(ctx):
         "a served answer is 'unchanged' iff its packed form (ID and TTLs normalised) equals the packed scripted answer without OPT",
         "the concurrent part consists of fresh hits only (they commute); race reports of the Go race detector are violations",
     ]
-    vlib.tlc_mc(ctx, SPEC, "c10_design.cfg", cfg_text=cl.cfg(MaxOps="8" if T else "7", **C10),
+    vlib.tlc_mc(ctx, SPEC, "c10_design.cfg", cfg_text=cl.cfg(MaxOps="7", **C10),
                 label="C10 design: 2 keys, <= 3 handles, store/hit/mutate interleavings")
     for alias, inv in (("store", "Isolation"), ("hit", "Isolation"), ("id", "HitId")):
         res = vlib.run_tlc(ctx, SPEC, "c10_nv_%s.cfg" % alias, expect_violation=True, workers=2,
@@ -99,7 +99,7 @@ def run(ctx):
             raise vlib.Infra("non-vacuity: Alias=%s should violate %s, got %r" % (alias, inv, res["violated"]))
     ctx.cov["non_vacuity"] = "Isolation is violated by TLC when the stored or the served message is shared (Alias), HitId when the ID is kept"
 
-    behs = vlib.tlc_behaviours(ctx, SPEC, "c10_gen.cfg", cfg_text=cl.cfg(gen=True, MaxOps="8" if T else "7", **C10), label="C10 gen (exhaustive)")
+    behs = vlib.tlc_behaviours(ctx, SPEC, "c10_gen.cfg", cfg_text=cl.cfg(gen=True, MaxOps="7", **C10), label="C10 gen (exhaustive)")
     behs = [b for b in behs if any(s["a"] == "Mutate" for s in b["steps"])]
     nall = len(behs)
     if not T:
